@@ -178,7 +178,7 @@ func classify(op, a, b string) []string {
 		if full, ok := rfcTargetInput(pa, pb); ok {
 			add("dotdot-then-empty-segment", dotdotThenEmpty(full))
 		}
-		add("empty-base-path-reference-to-root", pa.hasAuthority && pa.path == "" && relRef && pb.path != "" && pb.path[0] != '/' && (rfcRemoveDotSegments("/"+pb.path) == "/" || strings.HasPrefix(rfcRemoveDotSegments("/"+pb.path), "//")))
+		add("empty-base-path-reference-to-root", pa.hasAuthority && pa.path == "" && relRef && pb.path != "" && pb.path[0] != '/' && (rfcRemoveDotSegments("/"+pb.path) == "/" || strings.HasPrefix(rfcRemoveDotSegments("/"+pb.path), "//") || strings.HasPrefix(pb.path, "%2f") || strings.HasPrefix(pb.path, "%2F")))
 		add("absolute-reference-rootless-dot-segments", pb.hasScheme && !pb.hasAuthority && !strings.HasPrefix(pb.path, "/") && hasDotSegment(pb.path))
 	}
 	return cls
@@ -214,6 +214,7 @@ var corpus = [][2]string{
 	{"http://h", "."},              // http://h
 	{"http://h?q", "a/.."},         // http://h
 	{"http://h", ".//a"},           // http://h/a
+	{"http://h", "%2fa/é"},         // http://h%2fa/é
 	// ordinary resolution (RFC 3986 5.4 examples)
 	{"http://a/b/c/d;p?q", "g:h"}, {"http://a/b/c/d;p?q", "g"}, {"http://a/b/c/d;p?q", "./g"}, {"http://a/b/c/d;p?q", "g/"},
 	{"http://a/b/c/d;p?q", "/g"}, {"http://a/b/c/d;p?q", "//g"}, {"http://a/b/c/d;p?q", "?y"}, {"http://a/b/c/d;p?q", "g?y"},
@@ -228,5 +229,3 @@ var corpus = [][2]string{
 	{"http://a/b/c/d;p?q", "g?y/./x"}, {"http://a/b/c/d;p?q", "g?y/../x"}, {"http://a/b/c/d;p?q", "g#s/./x"}, {"http://a/b/c/d;p?q", "g#s/../x"},
 	{"http://a/b/c/d;p?q", "http:g"},
 }
-
-func wrapperCases(g *run, c [][2]string) {}
